@@ -80,6 +80,23 @@ def r1_emission_order(P, rep, ctx):
     af = F(ctx, an)
     comps = [x for x in ast.walk(an.node) if isinstance(x, ast.DictComp) and len(x.generators) == 1 and af.x(x.generators[0].iter) == "self._diff_root.nodes()" and not x.generators[0].ifs and norm(x.key) == norm(x.generators[0].target) + ".path" and norm(x.value) == norm(x.generators[0].target)]
     loops = [n for n in af.g.nodes if n.kind == "for" and af.x(n.stmt.iter) == "self._diff_root.nodes()"]
+    # ... and the diff nodes come first in the result: a dict keeps the position of the *first* insertion of a key, so
+    # entries put in before (e.g. the directory listing) would dictate the order
+    first_ok = False
+    for _, rv_ in af.returns():
+        if rv_ is None or (isinstance(rv_, ast.Dict) and not rv_.keys):
+            continue
+        db = af.dict_build(rv_)
+        if db is not None and db["families"] and not db["const"]:
+            src0 = db["families"][0]["src"]
+            first_ok = "self._diff_root.nodes()" in src0
+            m0 = MM.match("__d.items()", MM.pat(src0))
+            if not first_ok and m0 is not None and isinstance(m0["__d"], ast.Name):
+                # the nodes were collected in a dict built by a loop: look at what that dict is filled from
+                db2 = af.dict_build(m0["__d"])
+                first_ok = db2 is not None and bool(db2["families"]) and "self._diff_root.nodes()" in db2["families"][0]["src"]
+    rep.check(first_ok, "C18.R1", an.qual, "the nodes of the diff are the first entries of the annotated listing (their order is the processing order)", an.loc(), construct="annotate: diff nodes first",
+              message="annotate inserts other entries (e.g. the directory listing) before the diff nodes: the dict keeps the first insertion position of a key, so changed paths appear in listing order and a replaced directory is listed before its removed children")
     rep.check(bool(comps) or bool(loops), "C18.R1", an.qual, "annotate lists the diff in nodes() order", an.loc(), construct="annotate order", message="annotate does not preserve the nodes() order")
 
 
@@ -313,10 +330,13 @@ def r3_status(P, rep, ctx):
             for k_, v_ in ds_:
                 if v_ is None:
                     continue
-                tv = norm(v_)
-                base = tv[:-5] if tv.endswith("[:-1]") else tv
-                if base in (f"[{pp}] + list({pp}.parents)", f"[{pp}, *{pp}.parents]", f"[{pp}, *list({pp}.parents)]"):
-                    lists[nm_] = tv.endswith("[:-1]")
+                # the whole prefix list, optionally with its last element ('.') sliced off -- the slice must apply to the whole
+                # list: `[p] + list(p.parents)[:-1]` only shortens the parents and keeps '.' for the path '.' itself
+                whole, dropped_ = v_, False
+                if isinstance(v_, ast.Subscript) and norm(v_.slice) == ":-1":
+                    whole, dropped_ = v_.value, True
+                if norm(whole) in (f"[{pp}] + list({pp}.parents)", f"[{pp}, *{pp}.parents]", f"[{pp}, *list({pp}.parents)]"):
+                    lists[nm_] = dropped_
         shortest_first = False
         for nm_, dropped in lists.items():
             pops = [c_ for c_ in local_calls(gtfi.node) if MM.match(f"{nm_}.pop()", c_) is not None]
